@@ -252,9 +252,25 @@ impl QueryEngine {
         Ok(())
     }
 
+    /// Plan user-supplied SQL for the query interfaces, which are read-only.
+    ///
+    /// `SessionContext::sql` runs DDL (`CREATE`/`DROP`, `SELECT ... INTO`) and session
+    /// statements (`SET`, `PREPARE`) while planning and returns executable plans for DML
+    /// (`COPY ... TO`, `INSERT`), and the session holds a writable handle on the data
+    /// bucket. Everything that is not a query is therefore rejected here, before any of
+    /// it can take effect (this also covers `EXPLAIN ANALYZE` of such statements, since
+    /// the whole plan tree is verified).
+    async fn plan_read_only(&self, sql: &str) -> Result<DataFrame> {
+        let options = SQLOptions::new()
+            .with_allow_ddl(false)
+            .with_allow_dml(false)
+            .with_allow_statements(false);
+        Ok(self.ctx.sql_with_options(sql, options).await?)
+    }
+
     /// Execute a SQL query
     pub async fn execute(&self, sql: &str) -> Result<Vec<RecordBatch>> {
-        let df = self.ctx.sql(sql).await?;
+        let df = self.plan_read_only(sql).await?;
         let batches = df.collect().await?;
         Ok(batches)
     }
@@ -267,7 +283,7 @@ impl QueryEngine {
         index_controller: Arc<crate::adaptive_index::AdaptiveIndexController>,
     ) -> Result<Vec<RecordBatch>> {
         // 1. Analyze query for filter predicates
-        let df = self.ctx.sql(sql).await?;
+        let df = self.plan_read_only(sql).await?;
         let plan = df.logical_plan();
         let filter_columns = Self::extract_filter_columns(plan);
 
@@ -363,14 +379,14 @@ impl QueryEngine {
         &self,
         sql: &str,
     ) -> Result<datafusion::physical_plan::SendableRecordBatchStream> {
-        let df = self.ctx.sql(sql).await?;
+        let df = self.plan_read_only(sql).await?;
         let stream = df.execute_stream().await?;
         Ok(stream)
     }
 
     /// Extract time range from a SQL query by analyzing the logical plan
     pub async fn extract_time_range(&self, sql: &str) -> Result<TimeRange> {
-        let df = self.ctx.sql(sql).await?;
+        let df = self.plan_read_only(sql).await?;
         let plan = df.logical_plan();
 
         // Extract time predicates from the plan
@@ -498,7 +514,7 @@ impl QueryEngine {
         &self,
         sql: &str,
     ) -> Result<Vec<crate::metadata::predicates::ColumnPredicate>> {
-        let df = self.ctx.sql(sql).await?;
+        let df = self.plan_read_only(sql).await?;
         let plan = df.logical_plan();
 
         let mut predicates = Vec::new();
@@ -655,7 +671,7 @@ impl QueryEngine {
 
     /// Analyze a query without executing
     pub async fn analyze(&self, sql: &str) -> Result<datafusion::logical_expr::LogicalPlan> {
-        let df = self.ctx.sql(sql).await?;
+        let df = self.plan_read_only(sql).await?;
         Ok(df.logical_plan().clone())
     }
 
@@ -666,7 +682,7 @@ impl QueryEngine {
 
         // In a full implementation, we'd cache the logical plan
         // For now, just validate the SQL
-        let _ = self.ctx.sql(sql).await?;
+        let _ = self.plan_read_only(sql).await?;
 
         Ok(handle)
     }
